@@ -316,7 +316,11 @@ func parseGroup(mp *msgParser, tags []Tag) {
 		mp.fieldIndex++
 		mp.parsedFieldBytes = &mp.msg.fields[mp.fieldIndex]
 		mp.rawBytes, _ = extractField(mp.parsedFieldBytes, mp.rawBytes)
-		mp.trailerBytes = mp.rawBytes
+		if !isHeaderField(mp.parsedFieldBytes.tag, mp.transportDataDictionary) && !isTrailerField(mp.parsedFieldBytes.tag, mp.transportDataDictionary) {
+			// The trailer starts after the last field that belongs to the body: a header or trailer
+			// field that ends the group is not part of the body bytes.
+			mp.trailerBytes = mp.rawBytes
+		}
 
 		// Is this field a member for the group.
 		if isGroupMember(mp.parsedFieldBytes.tag, fields) {
